@@ -82,6 +82,18 @@ def make_system(dec, p, sym, mats, num_wann, nR):
             del s._XX_R[key]
     with zoo.quiet():
         s.set_pointgroup(sym["gens"])
+        how = dec(f"{p}/pg_form", 3)
+        if how and len(s.pointgroup.symmetries) > 1:
+            # the same group given as an explicit list of ALL its operations (as set_pointgroup_from_structure does),
+            # identity first; ordered "plain operations, then their time-reversed partners" (how=1) or reversed (how=2):
+            # serialisation must not depend on how the group was specified or ordered
+            from wannierberri.symmetry.point_symmetry import PointGroup, PointSymmetry
+            ops = sorted(s.pointgroup.symmetries,
+                         key=lambda x: (bool(x.TR), bool(x.Inv), tuple(np.round(x.R, 6).ravel().tolist())), reverse=(how == 2))
+            ident = [x for x in ops if (not x.TR) and (not x.Inv) and np.allclose(x.R, np.eye(3))]
+            ops = ident + [x for x in ops if x not in ident]
+            explicit = [PointSymmetry(x.R * (-1 if x.Inv else 1), TR=bool(x.TR)) for x in ops]
+            s.set_pointgroup(pointgroup=PointGroup(generator_list=explicit, real_lattice=s.real_lattice))
     if not all(sym["periodic"]):
         # drop the R-vectors that leave the slab so that `periodic` is consistent
         keep = s.rvec.iRvec[:, 2] == 0
